@@ -253,17 +253,23 @@ def run(ctx):
     b_ = np.array([0.5, 0.25, 0.125, 0.0])
     g_ = np.array([2000.0, 4096.0, 30000.0, 65504.0])
     u_ = np.array([0.5, 0.25, 0.75, 0.125])
+    u_ = np.array([0.5, 0.25, 0.75, 0.125, 0.9990234375, 0.0999755859375, 0.7001953125, 0.765625][:4])
+    u8 = np.array([0.9990234375, 0.0999755859375, 0.7001953125, 0.765625])  # exact in half precision, ln not
     for dt in (np.float16, np.float32):
         gd = g_.astype(dt)
         tb64 = np.sqrt(1.0 - 1.0 / gd.astype(np.float64) ** 2)
-        ctx.count("dtype")
-        try:
-            a_d, l_d = (np.asarray(x, dtype=np.float64) for x in eas.altDec(b_.astype(dt), tb64.astype(dt), gd, u_))
-            a_w, l_w = (np.asarray(x, dtype=np.float64) for x in eas.altDec(b_.astype(dt).astype(np.float64), tb64.astype(dt).astype(np.float64), gd.astype(np.float64), u_))
-            if not (np.all(np.abs(l_d - l_w) <= 1e-12 * np.abs(l_w)) and np.all(np.abs(a_d - a_w) <= 1e-9 + 1e-9 * np.abs(a_w))):
-                ctx.violation("dtype", f"EAS.altDec with {np.dtype(dt).name} kinematics gives lenDec {l_d.tolist()}, altDec {a_d.tolist()}; the same numbers as float64 give {l_w.tolist()}, {a_w.tolist()}", {"dtype": np.dtype(dt).name})
-        except Exception as e:
-            ctx.exception("dtype", f"EAS.altDec with {np.dtype(dt).name} kinematics raised", e, {"dtype": np.dtype(dt).name})
+        # which of the arrays arrive in the narrow type: the kinematics (D33), the random numbers (D44), all
+        for which, uu in (("kinematics", u_), ("random numbers", u8), ("kinematics and random numbers", u8)):
+            ctx.count("dtype")
+            kin = (lambda x: x.astype(dt)) if "kinematics" in which else (lambda x: x.astype(dt).astype(np.float64))
+            ucast = uu.astype(dt) if "random" in which else uu
+            try:
+                a_d, l_d = (np.asarray(x, dtype=np.float64) for x in eas.altDec(kin(b_), kin(tb64), kin(g_), ucast))
+                a_w, l_w = (np.asarray(x, dtype=np.float64) for x in eas.altDec(b_.astype(dt).astype(np.float64), tb64.astype(dt).astype(np.float64), gd.astype(np.float64), ucast.astype(np.float64)))
+                if not (np.all(np.abs(l_d - l_w) <= 1e-12 * np.abs(l_w)) and np.all(np.abs(a_d - a_w) <= 1e-9 + 1e-9 * np.abs(a_w))):
+                    ctx.violation("dtype", f"EAS.altDec with {np.dtype(dt).name} {which} gives lenDec {l_d.tolist()}, altDec {a_d.tolist()}; the same numbers as float64 give {l_w.tolist()}, {a_w.tolist()}", {"dtype": np.dtype(dt).name, "which": which})
+            except Exception as e:
+                ctx.exception("dtype", f"EAS.altDec with {np.dtype(dt).name} {which} raised", e, {"dtype": np.dtype(dt).name})
     ctx.count("contracts", ncontract["n"])
     for m in ("dtype", "plots", "lorentz", "speed", "shower", "energy", "inputs", "lendec", "lendec-internal-generator", "altdec", "monotone", "contracts"):
         ctx.require(m)
